@@ -864,6 +864,7 @@ class Slicer:
                             continue
                         if isinstance(p, list) and p[0] == 'f' and p[2].startswith('closure:'):
                             work.append(('up', fn, p[1]))
+                            work.append(('lo', fn, 1, p[1]))     # in-closure updates of a captured-by-value variable
                         break
                     continue
                 for p in pl[1]:
@@ -906,6 +907,8 @@ class Slicer:
                 if 1 <= l <= fn.nargs and not (fn.kind == 'closure' and l == 1):
                     out.add(('P', l))
                 for d in fn.defs.get(l, []):
+                    if fn.kind == 'closure' and l == 1 and ff is None:
+                        continue
                     if d[0] == '=':
                         if ff is not None:
                             dff = first_field(d[3])
